@@ -24,6 +24,7 @@ type Collection struct {
 	byId map[string]*item
 	// "change" events contain a *CollectionChange instance
 	bus minibus.Bus
+	pub publishQueue // orders publications on bus to match commit order
 }
 
 func NewCollection(options ...Option) *Collection {
@@ -107,6 +108,7 @@ func (c *Collection) Update(id string, msg proto.Message, opts ...WriteOption) (
 		return nil, err
 	}
 
+	var ticket uint64
 	var created proto.Message // during create, this is returned by GetFn so concurrent reference checks pass
 	oldValue, newValue, err := GetAndUpdate(
 		&c.mu,
@@ -145,6 +147,7 @@ func (c *Collection) Update(id string, msg proto.Message, opts ...WriteOption) (
 		writeRequest.changeFn(writer, msg),
 		func(msg proto.Message) {
 			c.byId[id] = &item{body: msg, changeTime: writeRequest.updateTime(c.clock)}
+			ticket = c.pub.ticket()
 		})
 
 	if err != nil {
@@ -158,6 +161,7 @@ func (c *Collection) Update(id string, msg proto.Message, opts ...WriteOption) (
 		changeType = types.ChangeType_ADD
 		oldValue = nil
 	}
+	c.pub.wait(ticket)
 	simhook.Yield("collection.publish")
 	c.bus.Send(context.TODO(), &CollectionChange{
 		Id:         id,
@@ -166,6 +170,7 @@ func (c *Collection) Update(id string, msg proto.Message, opts ...WriteOption) (
 		OldValue:   oldValue,
 		NewValue:   newValue,
 	})
+	c.pub.done()
 	return newValue, nil
 }
 
@@ -213,12 +218,14 @@ func (c *Collection) Delete(id string, opts ...WriteOption) (proto.Message, erro
 
 		// actually do the delete
 		delete(c.byId, id)
+		c.pub.wait(c.pub.ticket())
 		c.bus.Send(context.TODO(), &CollectionChange{
 			Id:         id,
 			ChangeTime: c.clock.Now(),
 			ChangeType: types.ChangeType_REMOVE,
 			OldValue:   oldVal.body,
 		})
+		c.pub.done()
 		c.mu.Unlock()
 		return oldVal.body, nil
 	}
